@@ -260,6 +260,7 @@ impl<'f> Enc<'f> {
             }
             (Str | StrRef | RcStr, Val::Str(s)) => self.string(s, f),
             (Dedup, Val::Str(s)) => self.dedup(s, f),
+            (VarU32, Val::Int(i)) => f.vu32(SiteKind::FixedInt, *i as u32),
             (Duration, Val::Duration(s, n)) => {
                 f.fixed(&s.to_be_bytes());
                 f.fixed(&n.to_be_bytes());
@@ -661,6 +662,7 @@ impl<'a> Dec<'a> {
             }
             Str => Val::Str(self.string()?),
             Dedup => Val::Str(self.dedup()?),
+            VarU32 => Val::Int(self.vu32()? as i128),
             Duration => {
                 let s = u64::from_be_bytes(self.be()?);
                 let n = u32::from_be_bytes(self.be()?);
